@@ -299,6 +299,8 @@ def run(rep):
     cls_of, items = severity_rule(rep, f)
     messages_rule(rep, f, cls_of, items)
     diag.run(rep, f, "C02")
+    from ..engines import dispatch
+    dispatch.run(rep, core.library_facts(), "C02")
     rep.undecided += ["that each guard's condition is exactly the production's condition",
                       "encoding legality (C05)", "absence of false fatal errors on well-formed input",
                       "truncated multi-byte sequence at end of input (xcodeMoreChars) — observed by reading, outside every rule"]
